@@ -82,6 +82,11 @@ def run(rep, tier, rng):
             for (ql, qbuf, _) in qs:
                 cases.append(C.read_case(req, pbuf, qbuf, [("it", -1), ("nth", 0)]))
                 meta.append((wl, exp, committed, pl, ql, pfl, True))
+            if pi % 3 == 2:
+                # the first record probed as another type (refused), then the iteration, on the same reader
+                other = [t for t in shapes.ALL_CODES if t != wl["code"]][pi % 12]
+                cases.append(C.read_case(-1, pbuf, qs[0][1], [("probe", other, 0), ("it", -1)]))
+                meta.append((wl, exp, committed, pl, qs[0][0], other, "probe"))
     # an index length field that crosses a byte boundary between two finalizes (51 -> 52 entries: 0x00FE -> 0x0102
     # words): torn, it announces more entries than the file holds; every byte cut of the last .shx header rewrite
     # against the complete .shp
@@ -148,6 +153,19 @@ def run(rep, tier, rng):
         msg = None
         if r in ([2], [-2], [-5]):
             msg = "panic or dead process on a crash state"
+        elif with_idx == "probe":
+            rd = C.parse_read(r, [("probe", pfl, 0), ("it", -1)])
+            if "ops" in rd:
+                pr = rd["ops"][0]["nth"]
+                if pr is not None and pr[0] == "ok":
+                    msg = ("read_nth_shape_as::<type %d>(0) returned a shape from the crash state (shp %s, shx %s) of a file of type %d"
+                           % (pfl, pl, ql, wl["code"]))
+                for i, it in enumerate(rd["ops"][1]["items"]):
+                    if msg or it[0] != "ok":
+                        break
+                    if i >= len(exp) or not P.same_modulo(exp[i][0], exp[i][1], it[1]):
+                        msg = ("after the first record was probed as type %d (refused), item %d of the iteration over the crash state "
+                               "(shp %s, shx %s) is not the %d-th written shape" % (pfl, i, pl, ql, i))
         elif with_idx == "bulk":
             rd = C.parse_read(r, [("readall",)])
             if rd.get("panic") or ("ops" in rd and rd["ops"][0]["all"][0] == "panic"):
@@ -186,6 +204,12 @@ def run(rep, tier, rng):
             if nfail == 1:
                 rep.violation({"kind": "oracle", "what": msg, "case_kind": "read", "case": c, "calls": wl["calls"],
                                "specs": wl["specs"], "shp_cut": pl, "shx_cut": ql})
+    # ---- crash states opened by path: which index file the reader picks up (dotted names, sibling shapefiles, stale
+    # index files), against the directory model (Model/Paths.v; lib/pathmodel.py)
+    import os
+    import pathmodel
+    import random
+    pathmodel.stage(rep, dev, random.Random(rep.seed * 7919 + 11), "c11p", 0, 400 if tier == "thorough" else 100)
     rep.sample({"calls": workloads[0]["calls"], "shp_cut": meta[5][3], "shx_cut": meta[5][4]})
     rep.cov["oracle"] = {"crash_states_read": len(cases), "failing": nfail}
     rep.assumptions += ["crash model = the property's own: a byte-level prefix of the operations issued to each destination, "
